@@ -76,4 +76,41 @@ run C17-r2m1 C17 C09
 run C17-r2m2 C17
 run C18-r2m1 C18
 run C18-r2m2 C18 C01
+# round 3: written against a description of the strengthened tester (sizes, dialects, zones, fault injection, footprint)
+run C01-r3m1 C01 C06
+run C01-r3m2 C01
+run C02-r3m1 C02 C12
+run C02-r3m2 C02 C06
+run C03-r3m1 C03
+run C03-r3m2 C03 C04
+run C04-r3m1 C04 C05
+run C04-r3m2 C04 C05
+run C05-r3m1 C05 C04
+run C05-r3m2 C05 C04
+run C06-r3m1 C06
+run C06-r3m2 C06 C04
+run C07-r3m1 C07
+run C07-r3m2 C07
+run C08-r3m1 C08 C06
+run C08-r3m2 C08 C01
+run C09-r3m1 C09
+run C09-r3m2 C09
+run C10-r3m1 C10 C03
+run C10-r3m2 C10
+run C11-r3m1 C11
+run C11-r3m2 C11 C06
+run C12-r3m1 C12 C04
+run C12-r3m2 C12 C13
+run C13-r3m1 C13 C04
+run C13-r3m2 C13
+run C14-r3m1 C14
+run C14-r3m2 C14
+run C15-r3m1 C15
+run C15-r3m2 C15
+run C16-r3m1 C16
+run C16-r3m2 C16
+run C17-r3m1 C17 C09
+run C17-r3m2 C17
+run C18-r3m1 C18 C01
+run C18-r3m2 C18 C01
 python3 tools/seeded_summary.py
